@@ -2,6 +2,7 @@ import GodiModel.Hyp
 import GodiProofs.Container.BuildLedger
 import GodiProofs.Container.BuildOrder
 import GodiProofs.Container.NoCaptive
+import GodiProofs.Container.TransientFresh
 /-! The executable hypothesis checkers are sound: `failedHyps descs = []` gives every structural
 hypothesis the container theorems assume. -/
 namespace Godi.Container
@@ -94,7 +95,7 @@ theorem instDistinct_of_check {descs : List Desc} (h : instDistinctB descs = tru
 godi's collection, every structural hypothesis of the container theorems holds for them -/
 theorem hyps_of_check {descs : List Desc} (h : failedHyps descs = []) :
     WF descs ∧ RegWF descs ∧ InstSingleton descs ∧ InstDistinct descs ∧ KeysDistinct descs ∧ ServiceUnique descs ∧
-    LongCtor descs 0 := by
+    LongCtor descs 0 ∧ ¬ TransCtor descs 0 := by
   unfold failedHyps at h
   have e : ∀ (b : Bool) (s : String), (if b then ([] : List String) else [s]) = [] → b = true := by
     intro b s hb; cases b <;> simp at hb ⊢
@@ -109,6 +110,11 @@ theorem hyps_of_check {descs : List Desc} (h : failedHyps descs = []) :
       unfold ctorZeroB at this
       intro d hd hc hs
       have := (List.all_eq_true.1 this) d hd
-      simp [hc, hs] at this⟩
+      simp [hc] at this, by
+      have := e _ _ a12
+      unfold ctorZeroB at this
+      rintro ⟨d, hd, hc, _⟩
+      have := (List.all_eq_true.1 this) d hd
+      simp [hc] at this⟩
 
 end Godi.Container
